@@ -94,6 +94,7 @@ structure Conf where    -- stored confirm: key (object nonce, oracle address), v
 structure Ghost where   -- history of a record (never read by the code paths)
   sent : Nat := 0       -- transferred oracle account → delegate address by bond / add-delegate
   undel : Nat := 0      -- undelegated by governance removal (→ unbonding entries)
+  reon : Bool := false  -- came back online through AddDelegate after a governance removal (known-finding history class)
   deriving DecidableEq, Repr
 
 inductive Kind where | os | batch | call
@@ -145,6 +146,7 @@ inductive Op where
   | editb (o b : Nat)
   | withdraw (o : Nat)
   | fund (o amt : Nat)
+  | mint (o amt : Nat)
   | unbond (o : Nat)
   | mkbatch
   | mkcall
@@ -266,18 +268,18 @@ def bond (s : State) (o b e v amt : Nat) : State × Res :=
                                byExt := Store.set s2.byExt e o,
                                gh := Store.set s2.gh o { sent := amt, undel := 0 } }, .ok)
 
-/-- `AddDelegate` -/
+/-- `AddDelegate` (the guards it makes before its first write are regenerated: `addChecks…`) -/
 def addDelegate (s : State) (o amt : Nat) : State × Res :=
-  if !s.proposal.contains o then (s, .err "no-oracle") else
+  if addChecksProposal && !s.proposal.contains o then (s, .err "no-oracle") else
   match Store.get s.oracles o with
   | none => (s, .err "no-oracle")
   | some r =>
     let slash := slashAmount s.p r
-    if slash > 0 && amt < slash then (s, .err "slash-short") else
+    if addChecksSlashPaid && (slash > 0 && amt < slash) then (s, .err "slash-short") else
     let dcoin := amt - slash
     let newAmt := r.amount + dcoin
-    if newAmt < s.p.thr then (s, .err "below")
-    else if newAmt > s.p.thr * s.p.mult then (s, .err "above")
+    if addChecksBelow && newAmt < s.p.thr then (s, .err "below")
+    else if addChecksAbove && newAmt > s.p.thr * s.p.mult then (s, .err "above")
     else if getBal s.bal o < amt then (s, .err "funds")
     else
       let s1 := { s with bal := Store.set s.bal o (getBal s.bal o - amt), burned := s.burned + slash }
@@ -289,7 +291,7 @@ def addDelegate (s : State) (o amt : Nat) : State × Res :=
                                      startHeight := if r.online then r.startHeight else s.height, slashTimes := 0 }
         let g := (Store.get s2.gh o).getD {}
         (refreshPower { s2 with oracles := Store.set s2.oracles o r',
-                                 gh := Store.set s2.gh o { g with sent := g.sent + dcoin } }, .ok)
+                                 gh := Store.set s2.gh o { g with sent := g.sent + dcoin, reon := g.reon || decide (g.undel > 0) } }, .ok)
 
 /-- `ReDelegate` -/
 def reDelegate (s : State) (o v : Nat) : State × Res :=
@@ -391,6 +393,9 @@ def confirm (s : State) (k : Kind) (n e b : Nat) (sigOk : Bool) : State × Res :
 
 /-- effect of an executed `MsgOracleSetUpdatedClaim` for a stored oracle set (`UpdateOracleSetExecuted`) -/
 def observe (s : State) (n : Nat) : State × Res :=
+  -- nonce 0 is not checked against the store; the claim of the harness carries no members, the stored record is the empty
+  -- byte string, which `GetLastObservedOracleSet` reads back as "none"
+  if n == 0 then ({ s with lastObserved := none }, .ok) else
   if s.osets.any (·.nonce == n) then ({ s with lastObserved := some n }, .ok) else (s, .err "no-object")
 
 /-- validator slashed by fraction `num/den` at the current height (floor arithmetic; exactness is not claimed) -/
@@ -474,9 +479,18 @@ def slashing (s : State) (h : Nat) : Except String State :=
       | .error e => .error e
       | .ok (s3, c) => .ok (if a || b || c then refreshPower s3 else s3)
 
+/-- which online oracles `GetCurrentOracleSet` keeps (regenerated skip condition; powers are naturals here, so "negative"
+never applies and `.negative` / `.none` keep zero-power oracles in) -/
+def keptMember (m : Nat × Nat) : Bool :=
+  match currentSetSkip with
+  | .nonPositive => m.2 > 0
+  | .negative => true
+  | .none => true
+  | .other => true
+
 /-- `GetCurrentOracleSet`: `power.Uint64()` and the `uint64` total are the arithmetic sites of the end-blocker -/
 def currentMembers (s : State) : Except String (List (Nat × Nat)) :=
-  let ps := ((onlineOracles s).map (fun o => (o.ext, power s.p o))).filter (fun m => m.2 > 0)
+  let ps := ((onlineOracles s).map (fun o => (o.ext, power s.p o))).filter keptMember
   if ps.any (fun m => m.2 ≥ u64) then .error "GetCurrentOracleSet:power.Uint64()" else
   let total := (ps.map (·.2)).sum % u64
   if !ps.isEmpty && total == 0 then .error "GetCurrentOracleSet:QuoUint64(totalPower)" else
@@ -491,33 +505,63 @@ def powerDelta (cur latest : List (Nat × Nat)) : Nat :=
   (cur.map (fun m => absDiff m.2 (memberPower latest m.1))).sum +
   ((latest.filter (fun m => !(cur.any (fun c => c.1 == m.1)))).map (·.2)).sum
 
-/-- `%.8f` of `delta / MaxUint32`, read back as a decimal, compared with the (capped) change percent -/
-def powerDiffReached (p : Params) (delta : Nat) : Bool :=
-  let rounded := (delta * 10 ^ 8 * 2 + maxU32) / (2 * maxU32)
-  rounded * 10 ^ 10 ≥ min p.pct dec
+/-- number of decimals `LegacyNewDecFromStr` accepts -/
+def decPrecision : Nat := 18
 
-/-- `isNeedOracleSetRequest` -/
-def needOracleSet (s : State) (h : Nat) (cur : List (Nat × Nat)) : Bool :=
-  match s.osets.find? (fun x => x.nonce == s.latestNonce) with
-  | none => true
-  | some latest => s.lastSlashHeight == h || powerDiffReached s.p (powerDelta cur latest.members)
+/-- the power difference `delta / MaxUint32` rendered as text with the REGENERATED format (`powerDiffFormat`, e.g. `%.8f`)
+and read back by `LegacyNewDecFromStr`: the value × 10^18, or `none` when the parser can reject the text (more than 18
+decimals).  `.fixed n`: rounded to `n` decimals.  `.shortest` prints every digit the float needs, which is more than 18
+decimals for small non-zero quotients; the model does not track float64 digit counts and answers `none` for every
+quotient that is not an integer (conservative: "can be rejected"). -/
+def powerDiffParsed (delta : Nat) : Option Nat :=
+  match powerDiffFormat with
+  | .fixed n =>
+    if n ≤ decPrecision then some ((delta * 10 ^ n * 2 + maxU32) / (2 * maxU32) * 10 ^ (decPrecision - n)) else none
+  | .shortest => if delta % maxU32 == 0 then some (delta / maxU32 * dec) else none
+  | .other => none
+
+/-- the threshold the parsed difference is compared with (capped at 1 when the code caps it) -/
+def refreshThreshold (p : Params) : Nat := if powerDiffCapAtOne then min p.pct dec else p.pct
+
+def latestSet (s : State) : Option OSet := s.osets.find? (fun x => x.nonce == s.latestNonce)
+
+/-- `isNeedOracleSetRequest`: the checks run in the order they are WRITTEN (`needChecks`, regenerated); `.error` = panic.
+The power-difference step dereferences the latest oracle set, formats, parses (panic on a parse error) and compares. -/
+def needGo (s : State) (h : Nat) (cur : List (Nat × Nat)) : List NeedCheck → Except String Bool
+  | [] => .ok false
+  | .latestNil :: rest => match latestSet s with
+    | none => .ok true
+    | some _ => needGo s h cur rest
+  | .slashThisBlock :: rest => if s.lastSlashHeight == h then .ok true else needGo s h cur rest
+  | .powerDiff :: rest => match latestSet s with
+    | none => .error "isNeedOracleSetRequest:nil-latestOracleSet"
+    | some latest => match powerDiffParsed (powerDelta cur latest.members) with
+      | none => .error "isNeedOracleSetRequest:LegacyNewDecFromStr"
+      | some v => if powerDiffGeRefreshes && v ≥ refreshThreshold s.p then .ok true else needGo s h cur rest
+  | .other :: rest => needGo s h cur rest
+
+def needOracleSet (s : State) (h : Nat) (cur : List (Nat × Nat)) : Except String Bool := needGo s h cur needChecks
 
 /-- `createOracleSetRequest` -/
 def createOracleSetRequest (s : State) (h : Nat) : Except String State :=
   match currentMembers s with
   | .error e => .error e
   | .ok cur =>
-    if needOracleSet s h cur && !cur.isEmpty then
-      .ok (refreshPower { s with osets := s.osets ++ [⟨s.latestNonce + 1, h, cur⟩], latestNonce := s.latestNonce + 1 })
-    else .ok s
+    match needOracleSet s h cur with
+    | .error e => .error e
+    | .ok need =>
+      if need && !cur.isEmpty then
+        .ok (refreshPower { s with osets := s.osets ++ [⟨s.latestNonce + 1, h, cur⟩], latestNonce := s.latestNonce + 1 })
+      else .ok s
 
-/-- `pruneOracleSet` -/
+/-- `pruneOracleSet` (comparisons regenerated; `currentBlock - window` is `uint64` arithmetic and wraps) -/
 def pruneOracleSet (s : State) (h : Nat) : State :=
   match s.lastObserved with
   | none => s
   | some n =>
-    if h < s.p.window then s else
-    let gone := fun (x : OSet) => (h - s.p.window > x.height) && (n > x.nonce)
+    if pruneGuarded && evalCmp pruneTooEarlyCmp h s.p.window then s else
+    let earliest := if h ≥ s.p.window then h - s.p.window else h + u64 - s.p.window
+    let gone := fun (x : OSet) => evalCmp pruneHeightCmp earliest x.height && evalCmp pruneNonceCmp n x.nonce
     { s with osets := s.osets.filter (fun x => !gone x),
              osConf := s.osConf.filter (fun c => !(s.osets.any (fun x => gone x && x.nonce == c.nonce))) }
 
@@ -546,6 +590,7 @@ def step (s : State) : Op → State × Res
   | .editb o b => editBridger s o b
   | .withdraw o => withdrawReward s o
   | .fund o amt => ({ s with dbal := Store.set s.dbal o (getBal s.dbal o + amt) }, .ok)
+  | .mint o amt => ({ s with bal := Store.set s.bal o (getBal s.bal o + amt) }, .ok)
   | .unbond o => unbond s o
   | .mkbatch => mkBatch s
   | .mkcall => mkCall s
